@@ -35,9 +35,10 @@ type SentinelEntry struct {
 	sc *SlotChain
 
 	exitCtl sync.Once
-	// exited is set when Exit hands the pooled context back: from then on the
-	// context may belong to another entry and must not be written through this one.
-	// ctxMu makes "not exited yet, so write" one step with respect to that hand-over.
+	// exited is set when Exit begins: from then on the context is read by the exit handlers
+	// and statistic slots and then handed back to the pool, where it may belong to another
+	// entry, so it must not be written through this one any more.
+	// ctxMu makes "not exited yet, so write" one step with respect to that.
 	ctxMu  sync.Mutex
 	exited bool
 }
@@ -109,16 +110,19 @@ func (e *SentinelEntry) Exit(exitOps ...ExitOption) {
 	}
 	e.exitCtl.Do(func() {
 		// Only the first Exit may record the error: afterwards the context is recycled.
+		// The entry is closed for SetError / SetPair before the exit handlers and statistic slots
+		// read the context: a TraceError from another goroutine either got in before (and is
+		// ordered before those reads by ctxMu) or is dropped, it never races with them.
+		e.ctxMu.Lock()
 		if options.err != nil {
 			ctx.SetError(options.err)
 		}
+		e.exited = true
+		e.ctxMu.Unlock()
 		defer func() {
 			if err := recover(); err != nil {
 				logging.Error(errors.Errorf("%+v", err), "Sentinel internal panic in SentinelEntry.Exit()")
 			}
-			e.ctxMu.Lock()
-			e.exited = true
-			e.ctxMu.Unlock()
 			if e.sc != nil {
 				e.sc.RefurbishContext(ctx)
 			}
